@@ -7,16 +7,16 @@ TODO = "check not built yet in this round; design in DESIGN.md section 5 (to be 
 CLAIMS = {
     "C14": {
         "text": "MqttTopics.tla: the contract is the set of live subscriptions with Matches / ValidFilter on character-level topic levels ('+' exactly one level, trailing '#' the remaining levels incl. the parent), "
-                "actions Subscribe (a rejected call may apply nothing), Unsubscribe, Disconnect, Takeover, Resume (a persistent session dropped and resumed keeps every filter with its own QoS); invariants RouteExact, NoResidue, Others; MqttTopicsImpl.tla (the trie: insert, remove with pruning, "
+                "actions Subscribe (a rejected call may apply nothing), Unsubscribe (a packet with a malformed filter removes one consistent subset of its well-formed ones; all of them for a clean packet), Disconnect, Takeover, Resume (a persistent session dropped and resumed keeps every filter with its own QoS); invariants RouteExact, NoResidue, Others; MqttTopicsImpl.tla (the trie: insert, remove with pruning, "
                 "findSubscribers frontier walk, session bookkeeping) is checked to refine it. TLC-generated histories are replayed in lock-step on a real TopicManager with real Session objects and on a real "
-                "Broker over loopback TCP with raw MQTT clients (10 probe topics after every operation); seeded random histories (4 clients, multi-byte and empty levels) are validated by TLC.",
+                "Broker over loopback TCP with raw MQTT clients (10 probe topics after every operation); seeded random histories (4 clients, multi-byte and empty levels, SUBSCRIBE / UNSUBSCRIBE packets mixing well-formed and malformed filters, topics looked up both before and after the operation that touches them) are validated by TLC.",
         "note": "the zero-length filter/topic and $-topics are out of scope (MQTT-4.7.3-1; the paho decoder drops them); QoS of a routed client = QoS of one of its own matching subscriptions",
         "technique": "TLA+ spec + TLC refinement check (trie vs contract); model-based histories (TLC -simulate) replayed on TopicManager and Broker; TLC trace validation",
     },
     "C15": {
         "text": "MqttDelivery.tla: Must/May delivery sets at publish time (a QoS0 copy may be dropped only when the client's queue is full), pending / received / acked, client publish -> pipeline + PUBACK; "
                 "invariants Fanout, OnlyRouted, NoResendAfterAck, PendingSound, NothingForgotten, PubAckSameId and liveness Redeliver under weak fairness; a sendMsgToClient-shaped layer refines it in its "
-                "repaired form. TLC-simulated scenarios (subscriber populations with mixed QoS and overlapping filters, ack policies prompt/late/never/hold-first, publish bursts, session age = packet-id wrap, bystander connects/disconnects during fan-out, client publishes with id re-use / DUP=1 / per-packet pipeline verdict) run on a real Broker with raw "
+                "repaired form. TLC-simulated scenarios (subscriber populations with mixed QoS and overlapping filters, ack policies prompt/late/never/hold-first, publish bursts, session age = packet-id wrap, bystander connects/disconnects during fan-out, client publishes with id re-use / DUP=1 / per-packet pipeline verdict, stalled readers: transport held over an in-memory connection, more than QCap messages fanned out, a QoS1 PUBLISH on a full outbound queue - the PUBACK is modelled through the outbound queue and a drop-on-full variant is refuted) run on a real Broker with raw "
                 "clients, every publish repeated K=30-40 times so that all visiting orders occur; negatives are decided at a barrier (no fan-out goroutine left + PING on every client), never by time-out; the "
                 "event log is validated by TLC.",
         "note": "retransmission clause read as: the session's oldest unacknowledged message is retransmitted until acked (the code resends the head of the pending queue); 10 s deadline extended to 50 s before reporting",
@@ -27,7 +27,7 @@ CLAIMS = {
                 "NetDrop, teardown steps T1-T4, WatchDelete, AdminDelete; invariants SuccessorIntact (Registered, SessionLive, Routed), ResumeOrDiscard, SupersededEndChangesNothing, AdminDeleteDisconnects - "
                 "all interleavings of three connections checked by TLC (675 k states) for the repaired teardown, refuted for teardown keyed by client id (the defect that was repaired). Schedules generated from "
                 "the contract (528 quick / 5 119 thorough, incl. resume chains) are executed on a real Broker with raw clients; the old connection's teardown is parked at three hook-free gates (will-message "
-                "pipeline call, blocking store delete, Disconnect pipeline before removeClient); admin delete raced by the owner's SUBSCRIBE; registration, session map, session content and actual delivery are observed after every step and validated by TLC.",
+                "pipeline call, blocking store delete, Disconnect pipeline before removeClient); admin delete raced by the owner's SUBSCRIBE; the asynchronous session store is part of model and schedules (a put parked in the store while a SUBSCRIBE queues behind it, back-to-back SUBSCRIBE bursts; a doStore that skips gone sessions or writes out of order is refuted); registration, session map, session content and actual delivery are observed after every step and validated by TLC.",
         "note": "no delete notification in flight when a client connects (a stale notification overtaking a plain reconnect is outside the text); interleavings inside handleConn explored in the model only",
         "technique": "TLA+ spec + TLC model checking of all interleavings; schedule MBT on a real Broker with hook-free parking; TLC trace validation",
     },
@@ -76,7 +76,7 @@ CLAIMS = {
                 "acceptor and release-once close (specs/ConnCap.tla), model-checked; refinement shown for the ordered-tuner code and refuted for unordered tuners (the defect that was repaired). TLC schedules "
                 "executed on the real LimitListener and Semaphore with the background adjustments ordered through the sem.resize gate (hook H1); concurrent histories of the real Semaphore, LimitListener and "
                 "HTTPServer runtime (maxConnections changed by reload, raw clients, half-close) validated by TLC against the contract with a conservative open counter; schedules and overlap cases include bursts of cap changes on a full server covering every sequence of call kinds (grow, shrink, shrink below usage, same value). MQTT half (specs/MqttConnCap*.tla): "
-                "connect / takeover / disconnect histories of a real Broker with raw clients validated by TLC (never more than maxAllowedConnection registered clients; refusals are server-unavailable; attempts parked in the Connect pipeline between the early check and registration). Connections closed by two Close calls that really overlap inside a slow close of the underlying connection (the slot comes back exactly once); server level also executes TLC-generated reload sequences mixing run-time cap changes with restarting reloads, the resulting cap probed with cap+1 clients.",
+                "connect / takeover / disconnect histories of a real Broker with raw clients validated by TLC (never more than maxAllowedConnection registered clients; refusals are server-unavailable; attempts parked in the Connect pipeline between the early check and registration; clients slow to read their CONNACK in gated and concurrent runs, registration after the CONNACK write refuted in the model). Connections closed by two Close calls that really overlap inside a slow close of the underlying connection (the slot comes back exactly once); server level also executes TLC-generated reload sequences mixing run-time cap changes with restarting reloads, the resulting cap probed with cap+1 clients.",
         "note": "a change counts as applied when SetMaxCount's done channel closes; at server level completion is assumed after a settle time and re-checked at 5x; HTTP/3 not covered; Go scheduler explored "
                 "by stress plus gate, not exhaustively",
         "technique": "TLA+ spec + TLC model checking (refinement); TLC-generated schedules replayed on the real code through a scheduling gate; TLC trace validation",
